@@ -18,7 +18,7 @@ ENCODED = [
 STUBS = ["GridRng: numpy-Generator stand-in whose draws are harness arguments: random() and beta() on the grid k/4, integers() and permutation() symbolic, all realised when handed to numpy/torch"]
 ASSUMPTIONS = ["draws lie in the documented range of the numpy call (grid k/4 for random/beta)", "float32 comparisons with tolerance 1e-5"]
 OUTSIDE = ["images larger than 3x3, batches larger than 4", "continuous beta values off the grid", "configurations with mixup_p + cutmix_p < 1 (NotImplementedError by design)"]
-BOUNDS = {"quick": "apply_mode x lamb_mode x shuffle_mode x {mixup, cutmix, both} x dataset modes {x class, index x class, class x}; batch 2..3 (4 for flip), image 2x2, one-hot classes or binary scalar labels; draws on the grid k/4, box centres and permutation symbolic",
+BOUNDS = {"quick": "apply_mode x lamb_mode x shuffle_mode x {mixup, cutmix, both} x dataset modes {x class, index x class, class x}; batch 1..3 (2 and 4 for flip), image 2x2, one-hot classes or binary scalar labels; draws on the grid k/4, box centres and permutation symbolic",
           "thorough": "same with 3x3 images and batch up to 4"}
 
 
@@ -50,7 +50,10 @@ class GridRng:
         return np.array([self._i(high) for _ in range(n)], dtype=np.int64)
 
     def permutation(self, n):
-        code = realize_all(self.perm_code)
+        # a second permutation draw in the same collate call is a *different* permutation (a fresh
+        # draw of a real generator almost surely is), so re-drawing instead of re-using shows
+        self.perm_calls = getattr(self, "perm_calls", 0) + 1
+        code = realize_all(self.perm_code) + (self.perm_calls - 1)
         items = list(range(n))
         out = []
         while items:
@@ -158,7 +161,7 @@ def conditions(tier, rng):
                     for dmode in ("x class", "index x class", "class x"):
                         if q and dmode != "x class" and (apply_mode, kind) != ("batch", "both"):
                             continue
-                        for B in ((2, 4) if shuffle_mode == "flip" else (2, 3)):
+                        for B in ((2, 4) if shuffle_mode == "flip" else (1, 2, 3)):
                             if q and B > 2 and lamb_mode == "sample" and kind != "mixup":
                                 continue
                             binary = (B == 2 and dmode == "class x")
@@ -171,7 +174,7 @@ def conditions(tier, rng):
                             # collator; CrossHair needs ~10 paths per leaf): shrink the grid, then the number of
                             # symbolic box centres, until it fits
                             cap = 150 if q else 1500
-                            nperm = {2: 2, 3: 6, 4: 24}[B]
+                            nperm = {1: 1, 2: 2, 3: 6, 4: 24}[B]
                             grid = (0, 1, 2, 3, 4)
                             ni_sym = ni
                             def _cost():
